@@ -12,6 +12,9 @@
 (* Totals: a vector states its value map `vmap` (Sorting.tla "totals"): w = 0 -    *)
 (* the totals as they are; w > 0 - the pool's totals are w-bit integers handed to *)
 (* the code as Embed(64, w, off, v), so that differences of totals overflow.      *)
+(* Universe "look": plain text keys that begin like a weekday / month name or    *)
+(* abbreviation (monitoring, Thu., Mondays) next to ordinary words - the          *)
+(* specification orders them as text in every mode.                               *)
 (* Phase 1 fixes (mode, universe); the step to phase 2 picks the pool and the     *)
 (* sort string (so TLC's workers share the work).                                 *)
 EXTENDS Sorting, SortingUniv, Json
@@ -35,12 +38,14 @@ Univs(m) ==
   CASE m = "text" -> {Un("any", X(UText, XText) \cup {<<49, 48>>, <<50>>, <<109, 111, 110>>, <<195, 169>>}, FALSE, 4)}
     [] m = "numeric" -> {Un("num", X(UNum, XNum), TRUE, 4), Un("text", X(UText, XText) \cup UWeek, FALSE, 4)}
     [] m = "contextual" -> {Un("num", X(UNum, XNum), FALSE, 4), Un("text", X(UText, XText), FALSE, 4),
-                            Un("weekday", X(UWeek, XWeek), TRUE, 4), Un("month", X(UMonth, XMonth), TRUE, 4)}
+                            Un("weekday", X(UWeek, XWeek), TRUE, 4), Un("month", X(UMonth, XMonth), TRUE, 4),
+                            Un("look", X(ULook, XLook) \cup UPlain, FALSE, 3)}
     [] m = "date" -> {Un("date1", Lay(UDate \cup XDate, 1), FALSE, 4), Un("date2", Lay(UDate \cup XDate, 2), FALSE, 4),
                       Un("date3", Lay(UDate \cup XDate, 3), FALSE, 4),
                       Un("date4", Lay(UOff \cup XOff, 4), TRUE, 4), Un("date5", Lay(UOff \cup XOff, 5), TRUE, 4),
                       Un("weekday", X(UWeek, XWeek), FALSE, 4), Un("month", X(UMonth, XMonth), FALSE, 4),
-                      Un("text", PlainText(UText \cup XText), FALSE, 4)}
+                      Un("text", PlainText(UText \cup XText), FALSE, 4),
+                      Un("look", X(ULook, XLook) \cup UPlain, FALSE, 3)}
     [] m = "value" -> {[Un("value", ValNames, FALSE, 4) EXCEPT !.vals = {0, 1, 2, 7}],
                        [Un("value-ties", {<<97>>, <<97, 98>>, <<66>>}, TRUE, 3) EXCEPT !.vals = {0, 1, 7}],
                        Wide(3, "zero", {<<97>>, <<97, 98>>, <<66>>}, 3),
